@@ -189,12 +189,13 @@ func runC09(c *Ctx) {
 			winFns = append(winFns, w)
 		}
 		chkWin := &GCheck{Name: "anchoring window check", MatchCall: func(c *Ctx, call *ssa.Call, env Env) bool { return call == wc }}
-		allocs := allocsOf(f, rmT)
-		if len(allocs) != 1 {
-			c.Check("C09.G2", typ+":model", false, f.Pos(), "expected one ResolutionModel allocation")
+		objs := c.builtObjs(f, rmT)
+		if len(objs) != 1 {
+			c.Check("C09.G2", typ+":model", false, f.Pos(), "expected one ResolutionModel built in the apply function")
 			continue
 		}
-		A := allocs[0]
+		O := objs[0]
+		A := O.v
 		if typ == "deactivate" {
 			c.CheckGuard("C09.G2", "deactivate:out-of-window-refused", f, nil, chkWin)
 			continue
@@ -208,7 +209,7 @@ func runC09(c *Ctx) {
 		ok, w, _ := c.Guard(f, nil, chkWin, evDoc)
 		c.Check("C09.G2", typ+":patched-doc-only-in-window", ok && apCall != nil, f.Pos(), "the patched document is installed only behind the window check", w...)
 		// out-of-window still advances: commitment installed on every path through the window check, and no refusal after it
-		okAdv := storeOnAllPathsAfter(A, "UpdateCommitment", wc)
+		okAdv := c.storeOnAllPathsAfter(O, "UpdateCommitment", wc)
 		seen := reach(wc.Block(), map[edge]bool{})
 		for b := range seen {
 			if r, isR := b.Instrs[len(b.Instrs)-1].(*ssa.Return); isR {
